@@ -582,6 +582,17 @@ def rebase(snapshot, ghost_before, current):
         toks += ghost_before[len(snapshot)]
         return toks, 0, []
     sm = difflib.SequenceMatcher(a=strs(snapshot), b=strs(current), autojunk=False)
+    # a consistently renamed local (every `old` became `new`, `old` no longer occurs) is renamed in the ghost text too
+    ren = {}; bad = set()
+    for tag, a0, a1, b0, b1 in sm.get_opcodes():
+        if tag == 'replace' and a1 - a0 == b1 - b0:
+            for x, y in zip(snapshot[a0:a1], current[b0:b1]):
+                if x.isidentifier() and y.isidentifier() and not x[0].isupper():
+                    if ren.get(str(x), str(y)) != str(y): bad.add(str(x))
+                    ren[str(x)] = str(y)
+    cur_set = set(strs(current)); snap_set = set(strs(snapshot))
+    ren = {x: y for x, y in ren.items() if x not in bad and x not in cur_set and y not in snap_set}
+    if ren: ghost_before = [[Tok(ren.get(str(t), str(t))) for t in run] for run in ghost_before]
     toks = []; pending = []; edits = []
     for tag, a0, a1, b0, b1 in sm.get_opcodes():
         if tag == 'equal':
